@@ -60,6 +60,12 @@ def random_program(r, i: int) -> dict:
         prog["ownerNs"] = r.choice(("elsewhere", None))
     if not namespaced and r.random() < 0.4:
         prog["ownerNs"] = None          # a cluster-scoped parent of a cluster-scoped object
+    if not namespaced and r.random() < 0.45:
+        # a cluster-scoped kind whose apiConfig nevertheless names a namespace: kr8s writes it into the object it
+        # POSTs, so it has to be in the payload (and in its last-applied record) before that
+        prog["apiNs"] = "odd-ns"
+        if r.random() < 0.4:
+            prog["ownerNs"] = "odd-ns"
     layers = [l for l in g.LAYERS if r.random() < (0.9 if l == "template" else 0.4)] or ["template"]
     for n, layer in enumerate(layers):
         v = g.dirty_value(r, force_directive=(n == 0))
@@ -77,6 +83,10 @@ def random_program(r, i: int) -> dict:
             t = g.node(metadata=g.node(labels=g.node(app=g.leaf("t"), **{g.DIRECTIVES[0]: g.leaf(["app"])})),
                        **{g.DIRECTIVES[2]: g.leaf(["spec"])}, spec=g.node(**{f"d_{layer}": g.value_tree(r, v, via_rate)}))
         prog["extra"][layer] = t
+    if r.random() < 0.2:    # the target names a namespace of its own (the forced overlay decides)
+        layer = r.choice(layers)
+        prog["extra"][layer] = g.tree_merge(prog["extra"][layer],
+                                            g.node(metadata=g.node(namespace=g.leaf(r.choice(("own-ns", "odd-ns"))))))
     if r.random() < 0.12:   # the F7 class: the target itself lists owners
         layer = r.choice(layers)
         refs = r.choice(([g.THIRD_REF], [g.THIRD_REF, g.OTHER_REF], [], [g.STALE_PARENT_REF],
@@ -367,6 +377,8 @@ def examine(ck: Check, prog: dict, b: dict, ans, label: str):
     mine = impl_request(obs)
     for layer in prog.get("extra", {}):
         ck.count(f"content-in-layer:{layer}")
+    if not prog["namespaced"] and prog.get("apiNs"):
+        ck.count("cluster-scoped-with-apiConfig-namespace")
     if prog.get("createTouchesMetadata"):
         ck.count("create-overlay-writes:" + prog["createTouchesMetadata"])
     if target_specifies_owner_refs(prog):
@@ -455,7 +467,8 @@ def run(tier: str) -> int:
              "(to depth 3) and in list items, placed in the inline resource / a ResourceTemplate, inline overlays, an "
              "overlayRef ValueFunction, create.overlay, as literals or through inputs, also inside metadata.labels and "
              "at the top level; owning / non-owning, parent in the same / another / no namespace, namespaced and "
-             "cluster-scoped; first reconciled against an empty cluster, then against live objects (minimal, or what "
+             "cluster-scoped (45% of the cluster-scoped kinds with an apiConfig.namespace all the same; 20% of targets name "
+             "a namespace of their own); first reconciled against an empty cluster, then against live objects (minimal, or what "
              "the first pass created — drifted or matching) whose ownerReferences are absent | [] | null | [other] | "
              "[other,third] | [parent] | [other,parent,third] | [a reference with the parent's apiVersion/kind/name but "
              "another uid] | [other, that]; lists nested directly in lists (1-3 levels) with directive-bearing maps "
